@@ -94,16 +94,28 @@ func Harness_C05_Site_eqs() {
 // exhaustiveness: accept / reject does not depend on the order (the case
 // named by the diagnostic may)
 func Harness_C05_Site_exhaustive() {
-	src := "package main\n\ntype U =\n  | Aa\n  | Bb\n  | Cc\n\nlet f (u:U) =\n  match u with\n"
+	src := "package main\n\ntype U =\n  | Aa\n  | Bb\n  | Cc\n\ntype V =\n  | Dd\n  | Ee\n\nlet f (u:U) =\n  match u with\n"
 	mask := 1 + verifChoice("mask", 7)
+	// an arm naming something that is not a case of U (a case of another
+	// union): first, last or absent
+	alien := verifChoice("alien", 3)
+	if alien == 1 {
+		src += "  | Dd -> 9\n"
+	}
 	for i, c := range []string{"Aa", "Bb", "Cc"} {
 		if mask&(1<<i) != 0 {
 			src += "  | " + c + " -> " + itoaV(i) + "\n"
 		}
 	}
+	if alien == 2 {
+		src += "  | Dd -> 9\n"
+	}
 	verifSetMapOrder(0)
 	out0, p0, _ := compileSrc(src)
-	for p := 1; p < verifMapOrders(); p++ {
+	if mask != 7 {
+		verifAssert(p0, "a match that omits a case is rejected")
+	}
+	for p := 1; p < 24; p++ {
 		verifSetMapOrder(p)
 		out, pp, _ := compileSrc(src)
 		verifAssert(pp == p0, "accept / reject does not depend on the enumeration order")
